@@ -4,6 +4,7 @@ import (
 	"fmt"
 	"github.com/osteele/liquid/values"
 	"sort"
+	"strconv"
 	"strings"
 	"testing"
 
@@ -301,6 +302,64 @@ func c15Sort(m *hx.Model, arr []any, key string) ([]any, hx.Status) {
 	return out, hx.StOK
 }
 
+// sort over arrays that contain nil: where the nils go is not stated, but the result is still a
+// permutation of the input whose other elements ascend
+
+type c15NilSortCase struct {
+	Elems []*hx.Spec `json:"elems"`
+}
+
+var c15NilSort = hx.Define("c15.sort-with-nil", func(c *c15NilSortCase, s *hx.Sub) *hx.Violation {
+	src := "{% assign q = r | sort %}{% for x in q %}[{{ x }}]{% endfor %}|{{ q | size }}"
+	o := hx.Render(src, map[string]any{"r": hx.SArr(c.Elems...).Realise()})
+	desc := fmt.Sprintf("sort on %v", hx.SArr(c.Elems...).Logical())
+	if o.Panic != nil {
+		return hx.V("panic@"+o.Panic.Site, "%s: %v", desc, o.Panic)
+	}
+	if !o.OK() {
+		return hx.V("c15:error:sort", "%s failed: %v", desc, o.Err)
+	}
+	list, size, _ := strings.Cut(o.Out, "|")
+	var got []string
+	if list != "" {
+		got = strings.Split(strings.TrimSuffix(strings.TrimPrefix(list, "["), "]"), "][")
+	}
+	m := hx.NewModel(nil)
+	var want []string
+	for _, e := range c.Elems {
+		p, _ := m.Print(e.Logical())
+		want = append(want, p)
+	}
+	if size != fmt.Sprint(len(c.Elems)) || len(got) != len(want) {
+		return hx.V("c15:value:sort", "%s rendered %q: not a permutation of the input", desc, o.Out)
+	}
+	a, b := append([]string{}, got...), append([]string{}, want...)
+	sort.Strings(a)
+	sort.Strings(b)
+	if strings.Join(a, "\x00") != strings.Join(b, "\x00") {
+		return hx.V("c15:value:sort", "%s rendered %q: not a permutation of the input", desc, o.Out)
+	}
+	// the elements that are not nil, in the order they come out, ascend
+	var prev any
+	for _, g := range got {
+		if g == "" {
+			continue
+		}
+		var cur any = g
+		if f, err := strconv.ParseFloat(g, 64); err == nil {
+			cur = f
+		}
+		if prev != nil {
+			if lt, st := m.Less(cur, prev); st == hx.StOK && lt {
+				return hx.V("c15:sort-with-nil", "%s rendered %q: the elements other than nil do not ascend", desc, o.Out)
+			}
+		}
+		prev = cur
+	}
+	s.NT()
+	return nil
+})
+
 var c15Alphabets = [][]*hx.Spec{
 	{hx.SInt(0), hx.SInt(1), hx.SInt(2), hx.SNil()},
 	{hx.SFloat(0.5), hx.SFloat(1.5), hx.SFloat(2), hx.SNil()},
@@ -392,6 +451,30 @@ func TestC15(t *testing.T) {
 		}
 	}
 	app.Sub.Note("the exhaustive part enumerated %d (array, representation, filter) points over all shards", idx)
+
+	ns := c15NilSort.On(col, "exhaustive: all arrays of length 2..4 over {0, 1, 2, nil} and {\"a\", \"b\", nil} that contain a nil; oracle: sort returns a permutation of the input in which the elements other than nil ascend (where the nils go is not stated). Distinct by construction", true)
+	for _, al := range [][]*hx.Spec{c15Alphabets[0], {hx.SStr("a"), hx.SStr("b"), hx.SNil()}} {
+		var recn func(cur []*hx.Spec, n int)
+		recn = func(cur []*hx.Spec, n int) {
+			if len(cur) >= 2 {
+				hasNil := false
+				for _, e := range cur {
+					hasNil = hasNil || e.K == "nil"
+				}
+				idx++
+				if hasNil && env.Mine(idx) {
+					ns.Run(&c15NilSortCase{Elems: append([]*hx.Spec{}, cur...)})
+				}
+			}
+			if n == 0 {
+				return
+			}
+			for _, e := range al {
+				recn(append(cur, e), n-1)
+			}
+		}
+		recn(nil, 4)
+	}
 
 	col.Rapid(app.Sub, env.PerShard(env.Pick(200000, 2000000)), func(t *rapid.T) {
 		c := &c15Case{}
